@@ -554,7 +554,7 @@ def design_run(pid, tier):
     r = vlib.tlc("CSDMC", cfg, workers=8, timeout=3000, java_opts=["-Xmx12g"])
     if r.rc != 0:
         raise RuntimeError("CSD small-scope model check failed for %s: rc=%s violated=%s" % (pid, r.rc, r.violated))
-    if pid in ("C01", "C02", "C03", "C04", "C07"):
+    if pid in ("C01", "C02", "C03", "C04", "C07", "C13"):
         # mechanism model: front-coding layout, locate / extract / locatePrefix transcribed, every read bounds-checked
         n = 4 if tier == "quick" else 5
         body = "SPECIFICATION Spec\nCONSTANTS Sigma = {97, 98}\nMaxLen = 3\nMaxN = %d\nBuckets = {2, 3, 4}\nFixed = %s\nINVARIANT %s\nCHECK_DEADLOCK FALSE\n"
